@@ -484,3 +484,13 @@ _add('C09', 'Totality (c09_generators_return): on valid arguments every generato
 _add('C08', 'Totality (c08_generators_return): on operands of width >= 1 that are gates of the host circuit every multiplier and squarer '
      '(DEFAULT, ALTER, 2^k-1, both Karatsuba variants, Dadda, Wallace, both squarers) returns — recursion and round fuels suffice, no column '
      'that is read is empty — or the 128-bit label space is exhausted.')
+_add('C10', 'Re-extraction is total: after a named connection in either direction get_block(name).into_circuit() returns '
+     '(c10_block_extraction_left_returns / _right_returns).')
+_add('C14', 'Total correctness (c14_into_bench_returns): every well-formed circuit with an input, accepted arities and no gate named like a '
+     'helper gate of the run is converted (these conditions are the weakest: bt_intoBench_ok_iff); the documented refusal without inputs '
+     'is a theorem too (c14_into_bench_no_input_error).')
+_add('C16', 'Which circuits the encoder accepts is a theorem: exactly the well-formed circuits over the format\'s gate types and arities '
+     '(word size < 256), and then decoding succeeds (c16_encode_succeeds_on_conforming); otherwise a codec error (c16_encode_errors).')
+_add('C17', 'Denormalisation never raises on a matching entry and returns the requested table (c17_denormalize_returns).')
+_add('C19', 'Error range of replace_subcircuit (c19_replace_subcircuit_errors): on a well-formed circuit, when it does not return it raised a '
+     'library error, never a Python-internal one, and no model fuel runs out.')
